@@ -141,6 +141,9 @@ def family(tier):
         qmax=3, quick=False)
     add("switch_trans_x_layer", "ab", "(deflayer l0 (layer-while-held l1) (switch () _ break))\n"
                                       "(deflayer l1 _ (switch () _ break))", qmax=2, track_hist=False, quick=False)
+    # two chords v2 that share no key can be active at the same time (release tracking of every active chord)
+    add("chv2_two_disjoint", "abcd", "(defchordsv2 (a b) x 3 all-released () (c d) y 3 all-released ())\n"
+                                     "(deflayer l0 a b c d)", opts="concurrent-tap-hold yes chords-v2-min-idle 5", qmax=2, chv2=2)
     add("holdfor_x_oneshot", "ab", "(defvirtualkeys v (one-shot 2 lsft))\n(deflayer l0 (hold-for-duration 3 v) x)",
         qmax=3, osbound=3, quick=False)
     return F
@@ -155,6 +158,14 @@ def mc_one(name, kbd, keynames, io, wd):
         inst["track_hist"] = io["track_hist"]
     if io.get("custom_th"):
         inst["custom_th"] = io["custom_th"]
+    if io.get("chv2"):
+        # chords v2 in L1 (spec/ChordsV2.tla): TRIGGER_TAPHOLD_COORD (0, 0) is dequeued like a key; the pending-event
+        # bound counts both queues; at most `chv2` chords active at the same time
+        inst["universe"] = keys + [0]
+        inst["view"] = "<<CvCanonK(K), phys, mon>>"
+        inst["extra_guard"] = "/\\ Len(K.L.chv2.q) + Len(K.L.queue) < QMax"
+        inst["constraint"] = "AchBound"
+        inst["extra_defs"] = "AchBound == Len(K.L.chv2.ach) <= %d" % io["chv2"]
     if io.get("seqbound"):
         # overlapping macros multiply the cursor positions: the exhaustive instances stop at `seqbound`
         # simultaneously running macros, the burst scripts go beyond the 4-slot ring on the real code
